@@ -237,8 +237,13 @@ def detector_roundtrip(run, transform, p, desc, r, n):
     fc, sc = transform.compute_xyz_from_tth_eta(tth, eta, om, **pp)
     tth2, eta2 = transform.compute_tth_eta(np.array((sc, fc)), omega=om, **pp)
     dperp = dist * np.sin(rt)
-    tolt = 1e-9 + 1e-5 / np.abs(dist)
-    tole = 1e-9 + 1e-5 / np.maximum(np.abs(dperp), 1e-9)
+    # the projection passes through pixel coordinates: position errors of ~1e-13 relative to the geometry scale
+    # (distance + detector extent, conditioning of the plane intersection ~1e3) are the floating point limit;
+    # observed worst on the unchanged tree 2.3e-7 um at scale 1.4e6 um (DESIGN.md Corrections)
+    scale = abs(p["distance"]) + 2048 * (abs(p["y_size"]) + abs(p["z_size"])) + abs(p["t_x"]) + abs(p["t_y"]) + abs(p["t_z"])
+    pos_tol = 1e-12 * scale
+    tolt = 1e-9 + np.degrees(pos_tol / np.abs(dist))
+    tole = 1e-9 + np.degrees(pos_tol / np.maximum(np.abs(dperp), 1e-9))
     run.count("detector_roundtrips", int(ok.sum()))
     b = ok & ~((np.abs(tth2 - tth) <= tolt) & (np.abs(np.asarray(geom.angdiff(eta2, eta), float)) <= tole))
     if b.any():
